@@ -181,7 +181,9 @@ def r1(ctx, rep):
     for lg in ctx.lgs:
         sem = ctx.sem(lg)
         nsem += 1
-        rep.instance(R1, ok=not sem.kw_drops, nontrivial=(lg.name, 'kw-propagation'))
+        rep.instance(R1, ok=not sem.kw_drops and not sem.stream_problems, nontrivial=(lg.name, 'kw-propagation'))
+        for where, msg in sem.stream_problems:
+            rep.finding(R1, f'C08.R1/{lg.name}/stream/{where.split(" ")[-1]}', where.split(' ')[0], f'{lg.name}: {where.split(" ")[-1]}', msg)
         for where, callee in sem.kw_drops:
             rep.finding(R1, f'C08.R1/{lg.name}/kw-dropped/{callee}', where.split(' ')[0], f'{lg.name}: {where.split(" ")[-1]}',
                         f'calls self.{callee}(...) without passing **kw on: the sub-evaluation happens at world 0 instead of the world being evaluated')
@@ -346,6 +348,9 @@ def r4(ctx, rep):
         ok = got == exp
         rep.instance(R4, ok=ok, sample=dict(cls=cls, clauses=sorted(c[0] for c in got)), nontrivial=cls)
         rep.consult(*info['where'])
+        for pr in dict.fromkeys(info['problems']):
+            rep.instance(R4, ok=False, nontrivial=(cls, pr[:30]))
+            rep.finding(R4, f'C08.R4/{cls}/{pr[:60]}', info['where'][0].split(' ')[0], cls, pr)
         if not ok:
             rep.finding(R4, f'C08.R4/{cls}', info['where'][0].split(' ')[0], cls, f'enforce() yields {sorted(c[0] for c in got)}, the class\'s frame condition is {sorted(c[0] for c in exp)}')
     n = 0
